@@ -28,6 +28,11 @@ def configs(ctx):
         for wiring in ("run", "lib"):
             out.append(dc(op="pg", n=3, proposal=prop, wiring=wiring, data_seed=16, grid=5))
             out.append(dc(op="pg", n=3, proposal=prop, wiring=wiring, outlier_prob=0.1, alpha=2.5, data_seed=17))
+    out.append(dc(op="pg", n=3, N=3, proposal="semi-adapted", wiring="run", threshold=0.5, data_seed=32, alpha=1.2))
+    # resampling at every step with mathematically equal weights (the trigger must not hinge on rounding noise: fix d.. in /repo)
+    out.append(dc(op="pg", n=2, N=3, proposal="fully-adapted", wiring="lib", threshold=1.0, data_seed=33, outlier_prob=0.1))
+    out.append(dc(op="pg", n=2, N=3, proposal="bootstrap", wiring="run", threshold=1.0, data_seed=33, outlier_prob=0.1))
+    out.append(dc(op="pg", n=2, N=3, proposal="semi-adapted", wiring="run", threshold=1.0, data_seed=34, outlier_prob=0.3, samples=2))
     r0 = random.Random(ctx.sub("sym"))
     # four exchangeable data points: one start state per orbit of the symmetric group determines the whole 243-state kernel
     out.append(dc(op="pg", n=4, style="flat", symmetric=1, proposal=r0.choice(PROPOSALS), wiring="run", alpha=r0.choice([0.7, 1.0, 2.3]), data_seed=29))
